@@ -10,6 +10,7 @@ mod entities;
 mod misc;
 mod offsets;
 mod names;
+mod config;
 
 fn main() {
     let args: Vec<String> = std::env::args().collect();
@@ -33,6 +34,7 @@ fn main() {
         "gc" => misc::gc(&args[2..]),
         "offsets" => offsets::offsets(&args[2..]),
         "names" => names::names(&args[2..]),
+        "config" => config::config(&args[2..]),
         other => {
             eprintln!("unknown subcommand {other}");
             exit(2)
